@@ -265,7 +265,7 @@ def programs(E, k, w):
 def harnesses(tier):
     q = tier == "quick"
     T = 600 if q else 900
-    S, PA, QA = (3, 2, 2) if q else (4, 3, 3)
+    S, PA, QA = (3, 2, 2) if q else (5, 3, 3)
     k, w, a = (2, 3, 2) if q else (3, 3, 2)
     return [
         H("layout_step", layout_step, dict(S=S, PA=PA, QA=QA), FUNCS,
@@ -284,8 +284,8 @@ def harnesses(tier):
           "arity <= %d incl. scalars, states and effects" % (k, w, a),
           outside="pixel-level rendering; quantum drawing helpers; "
           "pregroup.draw; equation; to_gif", timeout_s=T),
-        H("programs", programs, dict(k=2 if q else 3, w=3), FUNCS,
+        H("programs", programs, dict(k=2 if q else 4, w=3), FUNCS,
           covers=["program"], engine="DSE choices (straight-line programs "
           "enumerated)", bounds="bodies of %d applications over {copy 1->2, "
           "merge 2->1, del 1->0, new 0->1, h 1->1, scalar 0->0} on <= 3 input wires, wires "
-          "used in planar order" % (2 if q else 3), timeout_s=T)]
+          "used in planar order" % (2 if q else 4), timeout_s=T)]
